@@ -108,6 +108,8 @@ def r2_determinism(ctx):
                 t = st.targets[0] if isinstance(st, ast.Assign) else st.target
                 if isinstance(t, ast.Name):
                     k = _orderedness(st.value, ordered, unordered)
+                    if isinstance(st.value, ast.DictComp) and _orderedness(st.value.value, ordered, unordered) == "unordered":
+                        unordered.add(t.id + "[]")  # a dictionary whose *values* are set-like
                     if k == "ordered":
                         ordered.add(t.id)
                         unordered.discard(t.id)
@@ -158,6 +160,10 @@ def _orderedness(e, ordered, unordered) -> str:
     if isinstance(e, ast.Name):
         return "ordered" if e.id in ordered else ("unordered" if e.id in unordered else "unknown")
     if isinstance(e, ast.Subscript):
+        if isinstance(e.value, ast.Name) and (e.value.id + "[]") in unordered:
+            return "unordered"
+        if isinstance(e.value, ast.Name) and e.value.id in unordered:
+            return "unordered"
         b = _orderedness(e.value, ordered, unordered)
         # an element of an ordered dict-of-lists is ordered iff the values were built ordered: handled at assignment (dict comprehension below)
         return b
